@@ -22,7 +22,8 @@ EPS = 1e-3
 
 
 def sp_inv(y):
-    return math.log(math.expm1(y))
+    # softplus^-1; for large y, log(expm1(y)) = y + log1p(-exp(-y)) without overflow
+    return y + math.log1p(-math.exp(-y)) if y > 30 else math.log(math.expm1(y))
 
 
 def mat(v):
